@@ -54,6 +54,7 @@ class Ctx:
         self.assumptions = []
         self.cur_rule = None
         self.config_suffix = ""
+        self._und_seen = set()
 
     # ----------------------------------------------------------------- facts
     def facts(self, config):
@@ -87,6 +88,18 @@ class Ctx:
             r["samples"].append(sample)
 
     def fail(self, rid, key, where, fn, instance, reason, expected=None, found=None, path=None):
+        und = _undecided_fold(found)
+        if und:
+            # the function under the rule could not be folded (code outside the folder's language): that is not evidence of a
+            # defect.  One abstention per (rule, reason).
+            tag = (rid, und[:160])
+            if tag not in self._und_seen:
+                self._und_seen.add(tag)
+                self.abstain(rid, "%s: not foldable (%s), e.g. %s" % (fn, und[:200], instance), where)
+            else:
+                self.rules[rid]["obligations"] += 1
+                self.rules[rid]["undecided"] += 1
+            return
         r = self.rules[rid]
         r["obligations"] += 1
         self.violations.append(
@@ -115,9 +128,17 @@ class Ctx:
 
     def floor(self, rid, what, found, minimum):
         """instance floor: a rule that matches fewer sites than were counted by hand fails"""
-        self.check(rid, found >= minimum, "floor/" + what, "-", "-", what,
-                   "rule matched %d instance(s) of %s, fewer than the %d confirmed on the pinned tree" % (found, what, minimum),
-                   expected=">= %d" % minimum, found=found)
+        if found >= minimum:
+            self.ok(rid)
+        elif found == 0:
+            # nothing matched at all: the rule would pass vacuously -> fail closed
+            self.fail(rid, "floor/" + what, "-", "-", what,
+                      "rule matched no instance of %s (%d confirmed on the pinned tree): it cannot vouch for code it cannot find" % (what, minimum),
+                      expected=">= %d" % minimum, found=found)
+        else:
+            # fewer sites than on the pinned tree (code merged into helpers, loops fused, ...): every site found was checked, but the
+            # rule may be missing some -> not an accusation, not a pass
+            self.abstain(rid, "matched %d instance(s) of %s, fewer than the %d confirmed on the pinned tree" % (found, what, minimum))
 
     # ------------------------------------------------------------- reporting
     def finish(self, level, explanation, trusted_base, checker_cmd, assumptions=None, level_note=None):
@@ -206,6 +227,23 @@ class Ctx:
             "PASS" if not new_violations else "FAIL", self.prop, self.tier, obligations, discharged,
             len(self.undecided), len(known_hits), len(new_violations), wall))
         return 1 if new_violations else 0
+
+
+def _undecided_fold(found):
+    """describe() of a fold that ended in 'top'/'loop' (undecidable for the folder), anywhere in `found`"""
+    if isinstance(found, str):
+        return found if found.startswith(("top:", "loop:")) else None
+    if isinstance(found, (list, tuple)):
+        for x in found:
+            u = _undecided_fold(x)
+            if u:
+                return u
+    if isinstance(found, dict):
+        for x in found.values():
+            u = _undecided_fold(x)
+            if u:
+                return u
+    return None
 
 
 def _short(x, n=300):
